@@ -1,22 +1,13 @@
 import WgslVerif.Check.Gen
 import WgslVerif.Props.C10
+import WgslVerif.Props.C10Struct
 import WgslVerif.Props.C06
 namespace WgslVerif
 namespace CheckC10
 open WgslLayout (roundUp)
 
 /-- (align, size) encase assigns to an emitted struct, by name, from the REAL emitted structs -/
-def structMeta (structs : List RStruct) : Nat → String → Option (Nat × Nat)
-  | 0, _ => none
-  | fuel + 1, name =>
-    match structs.find? fun s => s.name == name with
-    | none => none
-    | some s =>
-      let metas := s.fields.map fun f => Encase.alignSizeOf (structMeta structs fuel) f.ty
-      if metas.all (·.isSome) then
-        let l := Encase.structLayout (metas.map fun x => x.getD (1, 0))
-        some (l.2.2, l.2.1)
-      else none
+abbrev structMeta := @Encase.structMeta
 
 /-- a member type the property lists (minus f64): representable leaves, arrays and nested structs of those -/
 def inDomain (m : Module) : Nat → Nat → Bool
@@ -69,10 +60,32 @@ def check (c : Ctx) (r : Run) : Verdict :=
       match (indexed m.types).find? (fun ht => structNameOf ht == some s.name) with
       | some (h, _) => r.opts.encase && gvt.contains h && !s.derives.contains "encase::ShaderType"
       | none => false
-    let spec : Status := match notWritable with
-      | s :: _ => .fail s!"encase#not-writable: host-shareable struct {s.name} does not derive encase::ShaderType although the encase switch is on (derives {s.derives})"
-      | [] => .skip "measured by the batch harness"
-    { corr := corr, spec := spec, tags := tags }
+    -- `C10_struct_exec(_offsets)` evaluated on the REAL structs: for a struct type reachable from a variable that is in the
+    -- theorem's domain (`C10S.natural`), under the glam representation, the layout `Ext.Encase` computes from the real items
+    -- (nested ones looked up in the real output) must be naga's offsets and span
+    let arenaOk := typeArenaOkB m
+    let thm := (indexed m.types).filterMap fun (ht : Nat × Ty) =>
+      match ht.2.inner, ht.2.name with
+      | .struct ms span, some name =>
+        if arenaOk && r.opts.repr == .glam && gvt.contains ht.1 && C10S.natural m (typeFuel m) ht.2 then
+          match o.structs.find? fun s => s.name == name with
+          | none => some (name, some "the struct is not emitted")
+          | some s =>
+            let sm := Encase.structMeta o.structs (o.structs.length + 1)
+            let metas := s.fields.map fun f => Encase.alignSizeOf sm f.ty
+            if !(metas.all (·.isSome)) then some (name, some "a field of the real item has no encase layout")
+            else
+              let l := Encase.structLayout (metas.map fun x => x.getD (1, 0))
+              if l.1 == ms.map (·.offset) && l.2.1 == span && sm name == WgslLayout.alignSize m (typeFuel m) ht.2 then some (name, none)
+              else some (name, some s!"encase lays the real item out at {natList l.1} size {l.2.1}, WGSL has {natList (ms.map (·.offset))} size {span}")
+        else none
+      | _, _ => none
+    let thmTags := thm.map fun (x : String × Option String) => s!"t;{x.1};{if x.2.isNone then "holds" else "FAILS"}"
+    let spec : Status := match notWritable, thm.find? (fun x => x.2.isSome) with
+      | s :: _, _ => .fail s!"encase#not-writable: host-shareable struct {s.name} does not derive encase::ShaderType although the encase switch is on (derives {s.derives})"
+      | [], some (name, some why) => .fail s!"encase#natural-struct-layout: struct {name} is in the domain of C10_struct but {why}"
+      | [], _ => if thm.isEmpty then .skip "measured by the batch harness" else .ok
+    { corr := corr, spec := spec, tags := tags ++ thmTags }
   | _, _ => { corr := corr, spec := .skip "no-output" }
 
 end CheckC10
